@@ -42,28 +42,88 @@ func runPreallocGuard(c *Ctx) {
 					}
 					n++
 					fa, _ := st.Addr.(*ssa.FieldAddr)
-					guarded := false
-					if fa != nil {
-						want := canon(fa)
-						for _, ce := range dominatingConds(b) {
-							bo, ok := ce.Cond.(*ssa.BinOp)
-							if !ok {
+					guarded := fa != nil && emptinessGuarded(b, fa)
+					c.Check(guarded, "PREALLOC", shortName(fn), "reset of "+strings.TrimPrefix(storeCell(st.Addr), "gtfs."), p.ipos(st), "the fresh slice is stored only when the collection is still empty (cap/len == 0 of the same object)", "a collection that the row loop appends to is replaced by a fresh slice without checking that it is still empty: rows of the same trip that are not contiguous lose the earlier ones")
+				}
+			}
+		}
+	}
+	// a collection field of an entity that outlives the row (reached through a pointer that is not a local struct) is
+	// replaced, on the way of a row (in the loop or in a closure / helper the loop calls), by something that does not
+	// extend its own old value, without a test that it is still empty: the rows collected for it earlier are lost
+	for _, fn := range staticParseFns(c) {
+		if fn.Parent() != nil {
+			continue
+		}
+		for _, l := range naturalLoops(fn) {
+			iff, ok := l.Header.Instrs[len(l.Header.Instrs)-1].(*ssa.If)
+			if !ok {
+				continue
+			}
+			call, ok := iff.Cond.(*ssa.Call)
+			if !ok || calleeName(call) != "(*"+modPath+"/csv.File).NextRow" {
+				continue
+			}
+			var callees []*ssa.Function
+			seen := map[*ssa.Function]bool{fn: true}
+			var addCallees func(blocks []*ssa.BasicBlock, d int)
+			addCallees = func(blocks []*ssa.BasicBlock, d int) {
+				for _, b := range blocks {
+					for _, in := range b.Instrs {
+						cl, ok := in.(*ssa.Call)
+						if !ok {
+							continue
+						}
+						var tgt []*ssa.Function
+						if sc := staticCallee(cl); sc != nil {
+							tgt = append(tgt, sc)
+						} else {
+							tgt = append(tgt, c.funcValues(cl.Call.Value, 0)...)
+						}
+						for _, t := range tgt {
+							if t == nil || seen[t] || !p.fnIndex[t] || len(t.Blocks) == 0 {
 								continue
 							}
-							cl, ok := bo.X.(*ssa.Call)
-							if !ok || !(isBuiltin(cl, "cap") || isBuiltin(cl, "len")) {
+							if t.Pkg == nil || t.Pkg.Pkg.Path() != modPath {
 								continue
 							}
-							ld, ok := cl.Call.Args[0].(*ssa.UnOp)
-							if !ok || canon(ld.X) != want {
-								continue
-							}
-							if k, isC := constInt(bo.Y); isC && k == 0 && ((bo.Op == token.EQL && ce.Val) || (bo.Op == token.NEQ && !ce.Val)) {
-								guarded = true
+							seen[t] = true
+							callees = append(callees, t)
+							if d < 2 {
+								addCallees(t.Blocks, d+1)
 							}
 						}
 					}
-					c.Check(guarded, "PREALLOC", shortName(fn), "reset of "+strings.TrimPrefix(storeCell(st.Addr), "gtfs."), p.ipos(st), "the fresh slice is stored only when the collection is still empty (cap/len == 0 of the same object)", "a collection that the row loop appends to is replaced by a fresh slice without checking that it is still empty: rows of the same trip that are not contiguous lose the earlier ones")
+				}
+			}
+			var lb []*ssa.BasicBlock
+			for b := range l.Blocks {
+				lb = append(lb, b)
+			}
+			addCallees(lb, 0)
+			for _, g := range callees {
+				for _, b := range g.Blocks {
+					for _, in := range b.Instrs {
+						st, ok := in.(*ssa.Store)
+						if !ok || isAppendOf(st.Val, st.Addr) {
+							continue
+						}
+						fa, ok := st.Addr.(*ssa.FieldAddr)
+						if !ok {
+							continue
+						}
+						if _, isSlice := deref(fa.Type()).Underlying().(*types.Slice); !isSlice {
+							continue
+						}
+						if _, local := fa.X.(*ssa.Alloc); local {
+							continue
+						}
+						if sl, isSl := st.Val.(*ssa.Slice); isSl && canon(sl.X) == "*("+canon(st.Addr)+")" {
+							continue
+						}
+						n++
+						c.Check(emptinessGuarded(b, fa), "PREALLOC", shortName(g), "reset of "+strings.TrimPrefix(storeCell(st.Addr), "gtfs."), p.ipos(st), "the fresh slice is stored only when the collection is still empty (cap/len == 0 of the same object)", "on the way of a row ("+shortName(g)+" is called from the row loop of "+shortName(fn)+") a collection of an entity that outlives the row is replaced by a value that does not extend it, without checking that it is still empty: rows of the same entity that are not contiguous lose the earlier ones")
+					}
 				}
 			}
 		}
@@ -130,6 +190,51 @@ func runPreallocGuard(c *Ctx) {
 	if n == 0 {
 		c.Proved("PREALLOC", "gtfs", "no collection is reset inside a row loop", "-", "no store of a fresh slice into an appended collection")
 	}
+}
+
+// isParamOrItsCell: v is the parameter, or a load of the local cell the parameter was spilled to (a parameter that a
+// closure captures lives in a cell that is stored once, with the parameter).
+func isParamOrItsCell(v ssa.Value, prm *ssa.Parameter) bool {
+	if v == ssa.Value(prm) {
+		return true
+	}
+	ld, ok := v.(*ssa.UnOp)
+	if !ok || ld.Op != token.MUL {
+		return false
+	}
+	al, ok := ld.X.(*ssa.Alloc)
+	if !ok {
+		return false
+	}
+	sts := cellStores(al)
+	return len(sts) == 1 && sts[0] == ssa.Value(prm)
+}
+
+// emptinessGuarded: block b is dominated by cap(F)==0 / len(F)==0 / F==nil of the very field fa addresses.
+func emptinessGuarded(b *ssa.BasicBlock, fa *ssa.FieldAddr) bool {
+	want := canon(fa)
+	for _, ce := range dominatingConds(b) {
+		bo, ok := ce.Cond.(*ssa.BinOp)
+		if !ok {
+			continue
+		}
+		holds := (bo.Op == token.EQL && ce.Val) || (bo.Op == token.NEQ && !ce.Val)
+		if ld, ok := bo.X.(*ssa.UnOp); ok && canon(ld.X) == want && isNilConst(bo.Y) && holds {
+			return true
+		}
+		cl, ok := bo.X.(*ssa.Call)
+		if !ok || !(isBuiltin(cl, "cap") || isBuiltin(cl, "len")) {
+			continue
+		}
+		ld, ok := cl.Call.Args[0].(*ssa.UnOp)
+		if !ok || canon(ld.X) != want {
+			continue
+		}
+		if k, isC := constInt(bo.Y); isC && k == 0 && holds {
+			return true
+		}
+	}
+	return false
 }
 
 // ---------------------------------------------------------------- sort comparators (G16b)
@@ -250,6 +355,33 @@ func runStaticOrder(c *Ctx) {
 				for _, in := range b.Instrs {
 					if call, ok := in.(*ssa.Call); ok && calleeName(call) == "sort.Slice" && strings.HasSuffix(canon(sortTarget(call)), ".StopTimes)") {
 						sortCall, sortLoop = call, l
+					}
+					// or a helper that is handed the trip's StopTimes and sorts that parameter on every path
+					if call, ok := in.(*ssa.Call); ok && sortCall == nil {
+						if h := staticCallee(call); h != nil && c.P.isModuleFn(h) && len(h.Blocks) > 0 {
+							for k, a := range call.Call.Args {
+								if k >= len(h.Params) || !strings.HasSuffix(canon(a), ".StopTimes)") {
+									continue
+								}
+								for _, hb := range h.Blocks {
+									for _, hin := range hb.Instrs {
+										sc, isCall := hin.(*ssa.Call)
+										if !isCall || calleeName(sc) != "sort.Slice" || !isParamOrItsCell(sortTarget(sc), h.Params[k]) {
+											continue
+										}
+										always := true
+										for _, rb := range h.Blocks {
+											if _, isRet := rb.Instrs[len(rb.Instrs)-1].(*ssa.Return); isRet && !(hb == rb || hb.Dominates(rb)) {
+												always = false
+											}
+										}
+										if always {
+											sortCall, sortLoop = call, l
+										}
+									}
+								}
+							}
+						}
 					}
 				}
 			}
